@@ -69,6 +69,23 @@ func templateVars(c *an.Ctx, dir string) map[types.Object]string {
 					}
 				}
 			}
+			// through a parsing helper: the variable is assigned the *template.Template result of a call
+			// one of whose arguments is a package-level string constant (the template source)
+			if _, done := out[lhs]; !done && strings.HasSuffix(lhs.Type().String(), "template.Template") {
+				if call, ok := an.Unparen(as.Rhs[0]).(*ast.CallExpr); ok {
+					var consts []types.Object
+					for _, a := range call.Args {
+						if o := an.ObjOf(p.TypesInfo, a); o != nil {
+							if k, isConst := o.(*types.Const); isConst && k.Parent() == p.Types.Scope() {
+								consts = append(consts, o)
+							}
+						}
+					}
+					if len(consts) == 1 {
+						out[lhs] = consts[0].Name()
+					}
+				}
+			}
 			return true
 		})
 	}
